@@ -65,7 +65,7 @@ REQUIRED_REACH = ["tri-template-red", "tri-template-blue1", "tri-template-blue2"
                   "exhaustive-level1-subsets", "exhaustive-level2-subsets", "exact-mode-steps",
                   "tolerance-mode-steps", "history-steps>=8", "history-mixed-adaptive-uniform",
                   "uniform-step-in-history", "line-adaptive-steps", "second-order-adaptive-steps",
-                  "parent-reused-after-adaptive"]
+                  "parent-reused-after-adaptive", "empty-marked-set-in-every-container"]
 ASSUMPTIONS = [
     "input meshes are conforming, non-degenerate and straight-sided (generators; quality floor 2^-10)",
     "marked sets are sets of valid cell indices, passed as ndarray or list in any order, possibly listing a cell twice",
@@ -744,6 +744,14 @@ def exhaustive_case(kind):
             child = one_step(ctx, mesh, marked, desc, rng, step=0, order_check=(s % 7 == 3))
             ctx.reached("exhaustive-level1-subsets")
             budget["n"] -= 1
+            if marked.size == 0:
+                # the empty marked set in the containers a caller may hand over
+                for form, fname in (([], "empty-list"), (np.zeros(0, dtype=np.int32), "empty-int32"),
+                                    (np.zeros(0, dtype=np.int64)[::2], "empty-view"), ((), "empty-tuple")):
+                    if isinstance(form, tuple):
+                        form = list(form)
+                    one_step(ctx, mesh, marked, dict(desc, form=fname), rng, step=0, form=form)
+                ctx.reached("empty-marked-set-in-every-container")
             if child is not None and marked.size and child.t.shape[1] <= 8:
                 level2.append((marked.tolist(), child))
         ctx.reached("exhaustive-meshes-fully-enumerated")
